@@ -148,7 +148,7 @@ pub fn run_case(case: &BatchCase) -> Result<BStats, String> {
                         for j in 0..gsize {
                             b.add_put(gkey(w, j), gvalue(w, c, pad));
                         }
-                        if let Err(e) = db.apply(WriteOptions::default(), b) {
+                        if let Err(e) = db.apply(WriteOptions { synchronous: (c + w as u64) % 3 == 0 }, b) {
                             errors.lock().unwrap().push(format!("apply returned {e:?} in a fault-free run"));
                         }
                     }
@@ -161,7 +161,7 @@ pub fn run_case(case: &BatchCase) -> Result<BStats, String> {
                         for j in 0..gsize {
                             b.add_put(gkey(w, j), gvalue(w, c, pad));
                         }
-                        if let Err(e) = db.apply(WriteOptions::default(), b) {
+                        if let Err(e) = db.apply(WriteOptions { synchronous: (c + w as u64) % 3 == 0 }, b) {
                             errors.lock().unwrap().push(format!("apply returned {e:?} in a fault-free run"));
                         }
                     }
@@ -170,7 +170,7 @@ pub fn run_case(case: &BatchCase) -> Result<BStats, String> {
                         for j in 0..gsize {
                             b.add_delete(gkey(w, j));
                         }
-                        if let Err(e) = db.apply(WriteOptions::default(), b) {
+                        if let Err(e) = db.apply(WriteOptions { synchronous: (c + w as u64) % 3 == 0 }, b) {
                             errors.lock().unwrap().push(format!("apply returned {e:?} in a fault-free run"));
                         }
                     }
